@@ -154,6 +154,9 @@ func (dc *DomConverter) visitElementNodeHandler(node *html.Node) bool {
 	case "div", "section", "header",
 		"h1", "h2", "h3", "h4", "h5", "h6":
 		if isElementWithoutContent(node) {
+			// These are block elements: even without content they separate the text
+			// before them from the text after them, like the other skipped blocks.
+			dc.builder.SkipNode(node)
 			return false
 		}
 	}
